@@ -102,7 +102,29 @@ func c05CLIEval(c *fw.Ctx, k c05CLICase) (sig, desc string) {
 	return "", ""
 }
 
+// c05Generate: generate onto an existing file fails and must leave it byte-identical (also on the second attempt).
+func c05Generate(c *fw.Ctx) {
+	l := wsp.Layout{Archs: LayoutByTag("L5").Archs, Method: 2, XFF: 0}
+	p := filepath.Join(c.Dir, "c05gen.wsp")
+	r := EmptyRings(l)
+	r[0][1] = wsp.Slot{T: 1700000001, V: 3}
+	pre := (&BFile{L: l, Rings: r}).Bytes()
+	os.WriteFile(p, pre, 0644)
+	for attempt := 1; attempt <= 2; attempt++ {
+		cmd := &wcmd.GenerateCommand{Dest: p, Perm: 0644, AggregationMethod: wt.Sum, ArchiveInfoList: archList(l.Archs), RandMax: 5, Fill: attempt == 1, TextOut: ""}
+		err, pn := RunCommand(1700000003, cmd)
+		post, rerr := os.ReadFile(p)
+		c.Count("evaluations", 1)
+		c.Count("cli_fault_cases", 1)
+		if (err != nil || pn != "") && (rerr != nil || !bytes.Equal(pre, post)) {
+			c.Violate("C05/cli/generate/existing-destination-changed-by-refused-write", fmt.Sprintf("generate onto an existing file failed (%v) on attempt %d but the file changed or disappeared (%v)", err, attempt, rerr), attempt, c05CLICase{CLI: "generate", Fault: "destination-exists"}, "")
+			return
+		}
+	}
+}
+
 func c05CLI(c *fw.Ctx) {
+	c05Generate(c)
 	for _, cli := range []string{"copy", "sum-copy"} {
 		for _, fault := range []string{"report-unwritable", "layout-mismatch", "source-truncated", "options-differ-from-destination-header", "none"} {
 			for _, fill := range []int{1, 2} {
@@ -131,6 +153,14 @@ func init() {
 		var k c05CLICase
 		if err := json.Unmarshal(raw, &k); err != nil || k.CLI == "" {
 			return false, "not a CLI case"
+		}
+		if k.CLI == "generate" {
+			c2 := &fw.Ctx{Prop: c.Prop, Tier: "quick", Of: 1, Dir: c.Dir, Deadline: c.Deadline, R: fw.NewResult()}
+			c05Generate(c2)
+			for _, v := range c2.R.Violations {
+				return true, v.Desc
+			}
+			return false, "generate leaves an existing file alone"
 		}
 		sig, desc := c05CLIEval(c, k)
 		return sig != "", desc
